@@ -2,13 +2,13 @@
 from proto_engine import *
 
 MODULE = "Feox.Props.C03"
-THEOREMS = ['Feox.C03.recover_ok', 'Feox.C03.recovered_complete', 'Feox.C03.write_txn_crash_safe', 'Feox.C03.write_txn_commit', 'Feox.C03.retire_txn_crash_safe', 'Feox.C03.before_intent', 'Feox.Proto.TiledBy.skip', 'Feox.Proto.TiledBy.mask', 'Feox.Proto.TiledBy.fill', 'Feox.Proto.maskRun_ignores']
+THEOREMS = ['Feox.C03.allocation_from_the_front_keeps_spans', 'Feox.C03.interleaved_batches_lose_a_record', 'Feox.C03.every_crash_point', 'Feox.C03.clear_journal_is_quiescent', 'Feox.C03.view_single_run', 'Feox.Proto.Txn.step_inv', 'Feox.Proto.Txn.crash_view', 'Feox.C03.recover_ok', 'Feox.C03.recovered_complete', 'Feox.C03.write_txn_crash_safe', 'Feox.C03.write_txn_commit', 'Feox.C03.retire_txn_crash_safe', 'Feox.C03.before_intent', 'Feox.Proto.TiledBy.skip', 'Feox.Proto.TiledBy.mask', 'Feox.Proto.TiledBy.fill', 'Feox.Proto.maskRun_ignores']
 
 
 def run(ctx):
-    return proto_check(ctx, MODULE, THEOREMS, ['crash'], ['workloads=2', 'budget=12'], ['workloads=20', 'budget=60'], ['C03'], "a crash image does not reopen to authentic, untorn, recent contents", [
+    return proto_check(ctx, MODULE, THEOREMS, ['crash', 'hazard'], ['workloads=2', 'budget=12', 'hazards=3'], ['workloads=20', 'budget=60', 'hazards=20'], ['C03'], "a crash image does not reopen to authentic, untorn, recent contents", [
         "kernel / file system: a write either fails or lands; a completed fsync makes every earlier write durable; a crash loses or tears (512 B) any subset of the un-synced writes only",
         "TornDetect: a torn journal slot / metadata block fails its checksum or equals the old or the new image (DESIGN.md section 2) — a hypothesis, not an axiom",
         "the abstract disk (Feox.Proto.Disk) is related to bytes by the Lean reader Feox.Fmt.recoverImage, itself compared with the real recovery on every crash image of this run",
         "faults are injected at the I/O hook (synchronous path; io_uring disabled), not in the kernel",
-    ], lambda op: op.startswith("fmt recover"))
+    ], lambda op: op.startswith("fmt recover") or op.startswith("txn "))
